@@ -1,3 +1,66 @@
 import Ptk.Proto
--- stub: the C07 model driver has not been written yet
-def main : IO Unit := Ptk.Proto.run fun _ => "bad-op"
+import Ptk.Model.C07
+open Ptk Ptk.Py Ptk.Proto Ptk.C07
+
+/-- stack in Python order (bottom first): `<n> (<text> <cur>)*` -/
+def encStack (l : List Buf) : String :=
+  encList (fun b => s!"{encStr b.text} {b.cur}") l.reverse
+
+def encK (k : KSt) : String :=
+  let p := match k.prev with | none => "N" | some h => toString h
+  s!"{encStr k.st.buf.text} {k.st.buf.cur} {p} U {encStack k.st.undo} R {encStack k.st.redo}"
+
+/-- handler body atoms: `U` (Buffer.undo()), `R` (Buffer.redo()), `S c` (save_to_undo_stack),
+    `F` (_fix_vi_cursor_position in navigation mode),
+    `E text cur` (any other body, observed result) -/
+def parseAtoms : List String → Option (List Act)
+  | [] => some []
+  | "U" :: r => (parseAtoms r).map (Act.undo :: ·)
+  | "R" :: r => (parseAtoms r).map (Act.redo :: ·)
+  | "F" :: r => (parseAtoms r).map (Act.edit viFix :: ·)
+  | "S" :: c :: r => do
+      let c ← decBool c
+      let rest ← parseAtoms r
+      pure (Act.save c :: rest)
+  | "E" :: t :: c :: r => do
+      let t ← decStr t
+      let c ← decNat c
+      let rest ← parseAtoms r
+      pure (Act.edit (fun _ => { text := t, cur := c }) :: rest)
+  | _ => none
+
+def apiAct : List String → Option Act
+  | ["ins", d] => do pure (.edit (insertText (← decStr d)))
+  | ["delb", n] => do pure (.edit (deleteBefore (← decNat n)))
+  | ["del", n] => do pure (.edit (delete (← decNat n)))
+  | ["cur", v] => do pure (.edit (setCursor (← decInt v)))
+  | ["text", t] => do pure (.edit (setText (← decStr t)))
+  | ["set", t, c] => do
+      let t ← decStr t
+      let c ← decNat c
+      pure (.edit (fun _ => { text := t, cur := c }))
+  | ["save", c] => do pure (.save (← decBool c))
+  | ["undo"] => some .undo
+  | ["redo"] => some .redo
+  | ["reset", t, c] => do pure (.reset { text := (← decStr t), cur := (← decNat c) })
+  | _ => none
+
+def stepLine (k : KSt) (toks : List String) : KSt × String :=
+  match toks with
+  | ["init", t, c] =>
+    match decStr t, decNat c with
+    | some t, some c => let k' := kInit { text := t, cur := c }; (k', encK k')
+    | _, _ => (k, "bad-op")
+  | ["kpreset"] => let k' := kpReset k; (k', encK k')
+  | "call" :: h :: r0 :: r1 :: atoms =>
+    match decNat h, decBool r0, decBool r1, parseAtoms atoms with
+    | some h, some r0, some r1, some body =>
+      let k' := callHandler h (fun rep => if rep then r1 else r0) body k
+      (k', encK k')
+    | _, _, _, _ => (k, "bad-op")
+  | _ =>
+    match apiAct toks with
+    | some a => let k' := { k with st := act k.st a }; (k', encK k')
+    | none => (k, "bad-op")
+
+def main : IO Unit := runS stepLine (kInit { text := [], cur := 0 })
